@@ -173,6 +173,21 @@ def gen_cases(rng, thorough):
         j = learner_job(learner, rng, lines_of(es2), 10000000, 2)
         j["input"] = "generator"
         add("generator_duplicate_cue", j, "raise", learner=learner)
+        if learner != "dict_ndl":
+            # the storage runs out while the generator is spooled to a text file in the main process:
+            # a small spool fails when it is closed, a large one in the middle of a write
+            big = base_events(rng, 2500, False)
+            for give_tmp in (True, False):
+                for evs, budget, expect in ((es, 0, "raise"), (es, 16, "raise"), (big, 1500, "raise"),
+                                            (es, 10000000, "return")):
+                    if not thorough and (budget == 16) == give_tmp:
+                        continue
+                    j = learner_job(learner, rng, lines_of(evs), 10000000, 2)
+                    j["input"] = "generator"
+                    j["give_tmp"] = give_tmp
+                    j["spool_fsize_limit"] = budget
+                    add("generator_spool_storage_full budget=%d events=%d tmp_given=%s" % (budget, len(evs), give_tmp),
+                        j, expect, learner=learner)
     # default (system) temporary directory
     for learner in ("ndl_openmp", "wh_b2r"):
         es = base_events(rng, 6, False)
